@@ -1441,8 +1441,13 @@ func (client *client) pollNewMessages(ids []packets.PacketID) (unused []packets.
 				ids = ids[1:]
 			}
 			if client.version == packets.Version5 && m.Message.MessageExpiry != 0 {
+				// forward the remaining lifetime: the received value minus the time the message has been waiting
 				d := uint32(now.Sub(v.At).Seconds())
-				m.Message.MessageExpiry = d
+				if d < m.Message.MessageExpiry {
+					m.Message.MessageExpiry -= d
+				} else {
+					m.Message.MessageExpiry = 1
+				}
 			}
 			client.write(gmqtt.MessageToPublish(m.Message, client.version))
 		case *queue.Pubrel:
